@@ -134,11 +134,13 @@ class TestDataGenerator():
 
         # Check every 'sampling_interval' hours for a transition
         transitions: List[TransitionTimes] = []
-        while True:
-            next_dt = dt + self.sampling_interval
+        until_dt = datetime(self.until_year, 1, 1, 0, 0, 0, tzinfo=pytz.utc)
+        while dt < until_dt:
+            # The last interval is clipped to the end of the range instead of
+            # being skipped, so that a transition just before the end of the
+            # range is not missed.
+            next_dt = min(dt + self.sampling_interval, until_dt)
             next_dt_local = next_dt.astimezone(tz)
-            if next_dt.year >= self.until_year:
-                break
 
             # Look for a UTC or DST transition.
             if self.is_transition(dt_local, next_dt_local):
